@@ -36,7 +36,7 @@ type Rec struct {
 	TS          uint64 // result of ts / tsa / low / lowa / stale / cw / foreign
 	Failed      bool   // the call returned a non-nil error (some library errors have an empty message)
 	Err         string
-	ErrKind     string // "" | future | latest-stale | maxint-range | pd | lag | other
+	ErrKind     string // "" | future | latest-stale | maxint-range | pd | lag | canceled | other
 	ReadTS      uint64 // val
 	Low0, Low1  uint64 // exp: cached ts read before / after the pair
 	Lock, TTL   uint64 // exp
@@ -349,6 +349,8 @@ func errKind(err error) string {
 	var pdTimeout *tikverr.ErrPDServerTimeout
 	msg := err.Error()
 	switch {
+	case errors.Is(err, context.Canceled), strings.Contains(msg, context.Canceled.Error()):
+		return "canceled"
 	case errors.As(err, &pdTimeout):
 		return "pd"
 	case errors.As(err, &fut):
@@ -476,6 +478,17 @@ func (w *world) do(name string, ci, idx int, c Call) *Rec {
 		low1, _ := w.o.GetLowResolutionTimestamp(ctx, opt)
 		r.Low0, r.Low1 = low0, low1
 	case "val":
+		if c.CancelUs > 0 {
+			cctx, cancel := context.WithCancel(ctx)
+			t := time.AfterFunc(time.Duration(c.CancelUs)*time.Microsecond, func() {
+				w.sim.Count("fault.caller-cancelled")
+				cancel()
+			})
+			setErr(w.o.ValidateReadTS(cctx, r.ReadTS, c.Stale, opt))
+			t.Stop()
+			cancel()
+			break
+		}
 		setErr(w.o.ValidateReadTS(ctx, r.ReadTS, c.Stale, opt))
 	case "setint":
 		setErr(w.o.SetLowResolutionTimestampUpdateInterval(time.Duration(c.A) * time.Microsecond))
